@@ -37,7 +37,11 @@ def pmap(func, items, report, chunksize=1, jobs=None):
         for it in items:
             report.merge(_call((func, it)))
         return
+    # non-daemonic workers: toasty itself starts child processes in some workflows
+    import concurrent.futures as cf
+
     ctx = mp.get_context("fork")
-    with ctx.Pool(min(jobs, len(items))) as pool:
-        for part in pool.imap_unordered(_call, [(func, it) for it in items], chunksize):
-            report.merge(part)
+    with cf.ProcessPoolExecutor(max_workers=min(jobs, len(items)), mp_context=ctx) as ex:
+        futs = [ex.submit(_call, (func, it)) for it in items]
+        for f in cf.as_completed(futs):
+            report.merge(f.result())
